@@ -47,6 +47,7 @@ unsigned g_lin_count;
 uint64_t g_lin_old, g_lin_new, g_last_read;
 bool g_held, g_acq_ok, g_rel_ok, g_bad_write;
 memory_order g_last_load_order;
+memory_order g_last_write_order;   /* order requested by the last write */
 
 #ifndef GV_LOCKBIT
 #define GV_LOCKBIT ((uint64_t)1)
@@ -76,6 +77,7 @@ static inline void gv_note_write(gv_atomic* a, uint64_t x, memory_order mo, bool
   g_lin_count = g_lin_count + 1;
   g_lin_old = a->v;
   g_lin_new = x;
+  g_last_write_order = mo;
 #ifdef GV_RELY_LOCK
   bool was = (a->v & GV_LOCKBIT) != 0, now = (x & GV_LOCKBIT) != 0;
   if (!g_held) {
